@@ -8,6 +8,7 @@
   NOT expressible here: zeroing of Go heap memory (no observable in an executable model).
 -/
 import MW.Model.Secrets
+import MW.Gen.Sec
 import MW.Lemmas.SecretsDY
 import MW.Lemmas.SecretsInv
 import MW.Lemmas.SecretsGate
@@ -93,6 +94,24 @@ theorem right_pass_unlocks (ops : List Op) (w : String) (r : WRec) (a : AM)
     (hw : AMap.get (reach ops).wal w = some (r, a)) :
     Derivable (passT r.pass :: visible (reach ops)) (.secret (.entropy r.ent)) :=
   SecretsGateOut.unlock_derivable ((SecretsGate.run_good ops SecretsGate.init_good).2.1 w r a hw)
+
+-- ------------------------------------------------------------------ tie B: regenerated facts
+
+/-- the fixed key names the model writes are exactly the key names the put* functions of keystore/db.go
+    pass to Bucket.Put (re-read from the source on every run) -/
+theorem gen_tie_keys :
+    (∀ k ∈ Gen.Sec.keyNamesWritten, k ∈ fixedKeys.filterMap KeyName.dbName) ∧
+    (∀ k ∈ fixedKeys.filterMap KeyName.dbName, k ∈ Gen.Sec.keyNamesWritten) ∧
+    Gen.Sec.bucketNames = ["k", "km", "aid", "pub"] := by decide
+
+/-- the shape of the gate the model relies on is the shape of today's source: both signing entry points
+    defer ClearPrivKey, safelyCheckPassword zeroes the master key only when locked, snacl refuses a
+    passphrase ending in a zero byte, and every secret-needing path checks the passphrase before it
+    decrypts / proceeds (getMnemonic, signBtcec, exportKeystore, CheckPrivPassphrase, RemoveWallet) -/
+theorem gen_tie_gate :
+    Gen.Sec.signWitnessTxDefersClear = true ∧ Gen.Sec.signHashDefersClear = true ∧
+    Gen.Sec.safelyCheckZeroesOnlyWhenLocked = true ∧ Gen.Sec.deriveKeyRefusesTrailingZero = true ∧
+    Gen.Sec.checkBeforeUse = [true, true, true, true, true] := by decide
 
 -- ------------------------------------------------------------------ non-vacuity (tests, by evaluation)
 
